@@ -205,12 +205,14 @@ def compare_loaded(b, a, style, fail, what="read back"):
 
 
 def save_text(a, style, via, tmpdir=None):
-    if via == "method":
-        f = io.StringIO()
-        a.save_lmpdat(f, atom_format=style)
-        return f.getvalue()
+    kw = {"atom_format": style}
+    if len(a) % 3 == 0:
+        kw["file_comment"] = ["UiO-66 linker", "structure 12", "generated by the harness, step 3"][len(a) % 9 // 3]
     f = io.StringIO()
-    a.save(f, filetype="lmpdat", atom_format=style)
+    if via == "method":
+        a.save_lmpdat(f, **kw)
+    else:
+        a.save(f, filetype="lmpdat", **kw)
     return f.getvalue()
 
 
